@@ -129,7 +129,6 @@ func (u *Unit) verify() (err error) {
 		return nil
 	}
 	out, _ := u.execBody(fn, st, true)
-	_ = out
 	// postconditions per return site
 	names := u.resultNames(con, fn.Signature)
 	for _, r := range u.retInfos {
@@ -155,9 +154,19 @@ func (u *Unit) verify() (err error) {
 				}
 			}
 		}
-		if con.HasFrame {
-			u.frameObligations(r, con, pkg)
+	}
+	// frame: checked once, on the state merged over all return sites (one obligation per heap instead of one per
+	// heap and return site; same strength: the merged heap is the return-condition-guarded choice of the site heaps)
+	if con.HasFrame && len(u.retInfos) > 0 && out != nil && !out.dead {
+		u.s.curTag = u.retInfos[len(u.retInfos)-1].node
+		all := map[int]bool{}
+		for _, r := range u.retInfos {
+			for k := range u.nodeAnc[r.node] {
+				all[k] = true
+			}
 		}
+		u.curAnc = all
+		u.frameObligations(retInfo{st: out, pos: u.retInfos[len(u.retInfos)-1].pos, blk: -1}, con, pkg)
 	}
 	return nil
 }
@@ -516,7 +525,11 @@ func (u *Unit) frameObligations(r retInfo, con *Contract, pkg *types.Package) {
 			}
 			goal = fmt.Sprintf("(forall ((r Int)) (=> %s (= (select %s r) (select %s r))))", and(conds...), cur, old)
 		}
-		u.oblige(r.st, "frame", mangle(hn), fmt.Sprintf("ret%d", r.blk), goal, r.pos)
+		site := fmt.Sprintf("ret%d", r.blk)
+		if r.blk < 0 {
+			site = "exit"
+		}
+		u.oblige(r.st, "frame", mangle(hn), site, goal, r.pos)
 	}
 }
 
